@@ -6,4 +6,4 @@ import (
 	"verif/internal/harness"
 )
 
-func TestProps(t *testing.T) { harness.Main(t, "C07", Arith, Fidelity) }
+func TestProps(t *testing.T) { harness.Main(t, "C07", Arith, Fidelity, Concurrent) }
